@@ -558,25 +558,32 @@ def MSlot.endListen (d : MSlot) (x : String) : MSlot :=
     { d with listens := others, endedOther := d.endedOther || !others.isEmpty,
              lost := d.lost.filter (fun r => r.survivor != x) ++ recs }
 
+/-- A table dump shows the session in the table of `what`: the ends recorded so far removed nothing. -/
+def MSlot.present (d : MSlot) (what : String) : MSlot := { d with lost := d.lost.filter (·.what != what) }
+
 /-- The session is missing from the table of `what` although a live, acknowledged listen was granted it:
 was it the end of an overlapping listen that removed the entry? -/
 def MSlot.lostClause (d : MSlot) (what : String) (seen : String) : Option String :=
-  match d.lost.find? (fun r => r.what == what && d.listens.any (·.name == r.survivor)) with
+  -- the most recent such end
+  match d.lost.reverse.find? (fun r => r.what == what && d.listens.any (·.name == r.survivor)) with
   | none => none
   | some r =>
+    if d.window.contains r.survivor then
+      some (s!"C18: ack_after_registration or acked_stays_served (overlapping listens): the session is missing from the table of a subscription while the handler of its live listen that was granted it is still held right after its acknowledgement write AND another listen of the session that was granted the same thing has ended (registered after the acknowledgement, or removed by that end) [ended={r.ended} survivor={r.survivor} what={what}; seen: {seen}]")
+    else
     let tab := if what.startsWith "u" then "resource" else "list-changed"
     let head := s!"C18: acked_stays_served (overlapping listens, {tab}): "
     let body :=
       if what.startsWith "u" then
         if r.endedOlder then
-          "the end of the OLDER subscriptions/listen stream unsubscribed the session from the URI although a newer, still live, acknowledged stream of the same session was granted the same URI (the clean-up is not by request id)"
+          "the end of the OLDER subscriptions/listen stream unsubscribed the session from the URI although a newer, still live, acknowledged stream of the same session was granted the same URI"
         else
-          "the end of the NEWER subscriptions/listen stream unsubscribed the session from the URI although an older, still live, acknowledged stream of the same session was granted the same URI (nothing hands the entry back)"
+          "the end of the NEWER subscriptions/listen stream unsubscribed the session from the URI although an older, still live, acknowledged stream of the same session was granted the same URI"
       else
         if r.endedOlder then
-          "the end of the OLDER subscriptions/listen stream took the session out of the list-changed table although a newer, still live, acknowledged stream of the same session was granted the same kind (the clean-up is not by request id)"
+          "the end of the OLDER subscriptions/listen stream took the session out of the list-changed table although a newer, still live, acknowledged stream of the same session was granted the same kind"
         else
-          "the end of the NEWER subscriptions/listen stream took the session out of the list-changed table although an older, still live, acknowledged stream of the same session was granted the same kind (nothing hands the entry back)"
+          "the end of the NEWER subscriptions/listen stream took the session out of the list-changed table although an older, still live, acknowledged stream of the same session was granted the same kind"
     some (head ++ body ++ s!" [ended={r.ended} survivor={r.survivor} what={what}; seen: {seen}]")
 
 def parseRet (impl : String) : Option (Nat × Bool) :=
@@ -731,12 +738,13 @@ def monitorStep (m : Mon) (toks : List String) (impl : String) : Mon × Option S
           let d := m.slot i
           let want := d.connected && d.grantedU u
           let n := (ds.filter (·.slot == i)).length
-          if want && n == 0 && d.modern && d.windowU u then
-            some "C18: ack_after_registration: the server acknowledged the session's subscription to the URI, but a ResourceUpdated call made while the listen handler was still held right after the acknowledgement write did not reach the session (the subscription is registered after it is acknowledged)"
-          else if want && n == 0 then
+          if want && n == 0 then
             match d.lostClause s!"u{u}" "a ResourceUpdated call did not reach the session" with
             | some c => some c
-            | none => some "C18: updated_reaches_exactly_subscribers: a session subscribed to the URI was not notified"
+            | none =>
+              if d.modern && d.windowU u then
+                some "C18: ack_after_registration: the server acknowledged the session's subscription to the URI, but a ResourceUpdated call made while the listen handler was still held right after the acknowledgement write did not reach the session (the subscription is registered after it is acknowledged)"
+              else some "C18: updated_reaches_exactly_subscribers: a session subscribed to the URI was not notified"
           else if !want && n > 0 then some "C18: updated_reaches_exactly_subscribers: a session not subscribed to the URI was notified"
           else if n > 1 then some "C18: updated_reaches_exactly_subscribers: a subscriber was notified more than once"
           else none)
@@ -807,18 +815,25 @@ def monitorStep (m : Mon) (toks : List String) (impl : String) : Mon × Option S
       let uriMiss := (List.range 2).filter (fun u => d.grantedU u &&
         (if d.modern then !d.listens.any (fun l => l.uris.contains u && has s!"U{u}" s!"c{i}={l.name}")
          else !has s!"U{u}" s!"c{i}=q"))
-      if kindMiss.any d.windowK || (d.modern && uriMiss.any d.windowU) then
-        some "C18: ack_after_registration: the server has written the acknowledgement of a subscriptions/listen (the handler is held right after that write) but the subscription it acknowledges is not in the server's table"
-      else
-        match first (kindMiss.map (fun k => d.lostClause (kindLetter k) "table dump") ++
-                     uriMiss.map (fun u => d.lostClause s!"u{u}" "table dump")) with
-        | some c => some c
-        | none =>
+      match first (kindMiss.map (fun k => d.lostClause (kindLetter k) "table dump") ++
+                   uriMiss.map (fun u => d.lostClause s!"u{u}" "table dump")) with
+      | some c => some c
+      | none =>
+        if kindMiss.any d.windowK || (d.modern && uriMiss.any d.windowU) then
+          some "C18: ack_after_registration: the server has written the acknowledgement of a subscriptions/listen (the handler is held right after that write) but the subscription it acknowledges is not in the server's table"
+        else
           if !kindMiss.isEmpty && d.endedOther then
             some "C18: F19 acked_stays_registered: the session's acknowledged list-changed subscription left the table when another subscriptions/listen of the same session ended"
           else if !kindMiss.isEmpty || !uriMiss.isEmpty then
             some "C18: acked_stays_registered: a subscription the server acknowledged, and the client has not ended, is missing from the server's table"
           else none)
+    let m := { m with slots := (List.range 3).map (fun i =>
+      let d := m.slot i
+      if !d.connected || !d.modern then d else
+      let d := Kind.all.foldl (fun d k =>
+        if d.listens.any (fun l => l.kinds.contains k && has (kindLetter k).toUpper s!"c{i}={l.name}") then d.present (kindLetter k) else d) d
+      (List.range 2).foldl (fun d u =>
+        if d.listens.any (fun l => l.uris.contains u && has s!"U{u}" s!"c{i}={l.name}") then d.present s!"u{u}" else d) d) }
     (m, first ((if bad then some "C18: closed_sessions_forgotten: a subscription table or the session list still mentions a closed session" else none) :: missing))
   | ["end"] =>
     let left := (List.range 3).map (fun i =>
@@ -826,12 +841,12 @@ def monitorStep (m : Mon) (toks : List String) (impl : String) : Mon × Option S
       match Kind.all.find? (fun k => d.owed.contains k && entitledNow d k) with
       | none => none
       | some k =>
-        if d.modern && d.skippedAck.contains k then
-          some "C18: ack_after_registration / at_least_one_after_burst: the session held the acknowledgement of its list-changed subscription when the callback took its snapshot (the listen handler was held right after the acknowledgement write), the snapshot did not include it, and no later notification reached it"
-        else match (if d.modern then d.lostClause (kindLetter k) "no notification reached the session after the last change" else none) with
+        match (if d.modern then d.lostClause (kindLetter k) "no notification reached the session after the last change" else none) with
         | some c => some c
         | none =>
-          if d.modern && d.endedOther then
+          if d.modern && d.skippedAck.contains k then
+            some "C18: ack_after_registration / at_least_one_after_burst: the session held the acknowledgement of its list-changed subscription when the callback took its snapshot (the listen handler was held right after the acknowledgement write), the snapshot did not include it, and no later notification reached it"
+          else if d.modern && d.endedOther then
             some "C18: F19 at_least_one_after_burst: the session's list-changed subscription was dropped when another subscriptions/listen of the same session ended"
           else if d.skipped.contains k then
             some "C18: at_least_one_after_burst: callbacks ran after the last change but none of them notified this entitled session"
